@@ -651,12 +651,11 @@ func (fc *funcContext) translateBranchingStmt(caseClauses []*ast.CaseClause, def
 
 	condStrs := make([]string, len(caseClauses))
 	for i, clause := range caseClauses {
-		if flatten {
-			// The statements that evaluate the blocking parts of the conditions
-			// belong to this clause too.
-			if pos := clause.Pos(); pos.IsValid() {
-				fc.SetPos(pos)
-			}
+		// The statements that evaluate the blocking parts of the conditions, and the
+		// code that follows a function literal inside a condition, belong to this
+		// clause too.
+		if pos := clause.Pos(); pos.IsValid() {
+			fc.SetPos(pos)
 		}
 		conds := make([]string, len(clause.List))
 		for j, cond := range clause.List {
